@@ -158,6 +158,12 @@ def main(argv=None):
             inconcl.append("reach %s=%d below the required %d" % (name, reach.get(name, 0), need))
 
     os.makedirs(os.path.join(VERIF_DIR, "replays"), exist_ok=True)
+    import glob
+    for old_file in glob.glob(os.path.join(VERIF_DIR, "replays", "%s-%d-%s-*.json" % (prop, seed, tier))):
+        try:
+            os.remove(old_file)
+        except OSError:
+            pass
     unknown = []
     known_hit = []
     for n, (key, lst) in enumerate(sorted(by_key.items())):
